@@ -121,14 +121,20 @@ func genOp(r *rand.Rand, l model.Layout, now int64, o histOpts) Op {
 			}
 			pts = append(pts, model.PtBits{T: uint32(t), Bits: genValueBits(r, o.hostileValues)})
 		}
-		if o.futureBatch && r.Intn(3) == 0 {
+		if o.futureBatch && r.Intn(3) == 0 && now+4*l.MaxStep() < 1<<32 { // (points ahead of the clock must stay inside the clock domain with their coarser intervals)
 			// points ahead of the caller's clock, consecutive, sometimes continuing a dense run that ends at the clock
 			ahead := minI64(4, 2*l.MaxStep()-1)
-			if r.Intn(2) == 0 {
-				for t := now - minI64(retT-1, int64(a.Points)+2); t <= now; t++ {
-					if t > now-retT && a.Step == 1 {
+			if r.Intn(2) == 0 && a.Points <= 600 {
+				// one point per interval of the whole ring, continued ahead of the clock: a run of consecutive intervals
+				// longer than the archive itself
+				S := int64(a.Step)
+				for j := int64(a.Points) - 1; j >= 0; j-- {
+					if t := model.AlignDown(now, a.Step) - j*S; t > now-retT && t > 0 {
 						pts = append(pts, model.PtBits{T: uint32(t), Bits: genValueBits(r, o.hostileValues)})
 					}
+				}
+				for j := int64(1); j <= 3 && model.AlignDown(now, a.Step)+j*S <= now+2*l.MaxStep()-1; j++ {
+					pts = append(pts, model.PtBits{T: uint32(model.AlignDown(now, a.Step) + j*S), Bits: genValueBits(r, o.hostileValues)})
 				}
 			}
 			for j := int64(1); j <= ahead; j++ {
